@@ -22,7 +22,7 @@ INTNAMES = {'num_branches', 'num_taps', 'fchans', 'tchans', 'num_chans', 'num_po
             'num_antennas', 'num_bits', 'block_size', 'fftlength', 'int_factor',
             'samples_per_block', 'bytes_per_sample', 'blocks_per_file', 't_subsamples',
             'f_subsamples', 'start_chan', 'num_blocks', 'num_subblocks', 'tchans_per_block',
-            'smearing_subsamples', 'max_delay'}
+            'smearing_subsamples', 'max_delay', 'input_num_blocks'}
 
 
 def _install_sign_hooks():
@@ -51,6 +51,10 @@ def _install_sign_hooks():
                 if a.kind in ('idx',):
                     continue
                 if a.kind == 'call' and a.args[0] in ('round', 'floor', 'ceil', 'trunc', 'len', 'floordiv', 'mod'):
+                    continue
+                if a.kind == 'call' and a.args[0] in ('min', 'max') and all(is_integer(x) for x in a.args[1]):
+                    continue
+                if a.kind == 'ite' and is_integer(a.args[1]) and is_integer(a.args[2]):
                     continue
                 return False
         return True
@@ -127,7 +131,7 @@ class Result:
 
 class Interp:
     def __init__(self, prog, max_depth=4, types=None, no_inline=(), quantity_plain=True,
-                 expansions=None, opaque_attrs=()):
+                 expansions=None, opaque_attrs=(), sticky_attrs=()):
         self.prog = prog
         self.max_depth = max_depth
         self.types = dict(types or {})          # term key -> ClassInfo
@@ -147,6 +151,9 @@ class Interp:
         self._new_id = 0
         self.unresolved = []
         self.record = True
+        if sticky_attrs:
+            # stores to these self attributes keep the symbolic attribute as their value
+            self.expansion_mode = (sym('self'), lambda v: False, set(sticky_attrs), set(), False)
 
     # ------------------------------------------------------------------ API
     def run(self, fi, args=None, self_term=None, self_cls=None):
